@@ -65,6 +65,13 @@ def pushSim (cfg : Cfg) (p : Sid) : Bool :=
 
 def pushB (cfg : Cfg) : Bool := (List.range cfg.n).all (fun p => cfg.pushSim p)
 
+/-- cached connections are flat and covered by the destination's input-delay table (`PullOk`) -/
+def pullSim (cfg : Cfg) (p : Sid) : Bool :=
+  (cfg.sim p).pulled.all (fun e => decide (e.1 < cfg.n) && e.2.1.cutoff == 1 && e.2.1.tiers.length == 1 &&
+    (cfg.sim p).inputDelays.any (fun qd => qd.1 == e.1 && TI.leB qd.2 e.2.1))
+
+def pullB (cfg : Cfg) : Bool := (List.range cfg.n).all (fun p => cfg.pullSim p)
+
 /-- candidate ranking: length of the longest chain of zero-delay connections ending in a simulator
 (`n` rounds of relaxation; correct whenever the zero-delay connections are acyclic) -/
 def zeroRank (cfg : Cfg) : List Nat :=
